@@ -35,6 +35,39 @@
 (* full grid.  The driver realises that alphabet on real grids.            *)
 (* ModeRead = "construct" (opacity mode latched when the object was built) *)
 (* must be refuted as well.                                                *)
+(*                                                                         *)
+(* EVALUATION CONFIGURATION.  The twin relation is stated UNDER a          *)
+(* configuration c = <<interp, route, extra>> that is applied identically  *)
+(* to both twins: the k-table twin evaluated under c equals the cross-     *)
+(* section twin evaluated under the same c.                                *)
+(*   interp : the temperature-interpolation scheme ("linear" | "exp", the  *)
+(*            xsec_interpolation option).  A (T, P) class TPs[t] says      *)
+(*            where the layer sits relative to the nodes of the table:     *)
+(*            on a "node", "between" two nodes, "below" / "above" the      *)
+(*            table.  The scheme enters a value only when T is between two *)
+(*            nodes (CoefS); on nodes and outside the table (edge values)  *)
+(*            every scheme gives the same number.                          *)
+(*   route  : how c reaches the table objects of BOTH kinds: "global" (the *)
+(*            GlobalCache key, read when the caches discover the files),   *)
+(*            "api" (OpacityCache.set_interpolation), "ctor" (constructor  *)
+(*            argument of the container, objects handed to the caches),    *)
+(*            "setter" (set_interpolation_mode on the objects already      *)
+(*            loaded: they are KEPT, memo included, and changed in place). *)
+(*            With every other route the tables are loaded again.          *)
+(*   extra  : further global keys both families read (memory mode,         *)
+(*            de-activated molecules); they never enter a value.           *)
+(* CfgRead says how c reaches the two families.  "both": as documented.    *)
+(* Mutants, each refuted by TwinEqualsXsec: "k-ctor-drops" / "x-ctor-drops"*)
+(* (the container of one family drops the scheme it is constructed with:   *)
+(* it interpolates with the default "linear" unless the scheme is set in   *)
+(* place afterwards), "k-setter-noop" / "x-setter-noop" (setting the       *)
+(* scheme in place has no effect on one family: it keeps the scheme it was *)
+(* loaded with).  They are visible ONLY for T between nodes with a non-    *)
+(* default scheme (NodeBlind holds), the first pair only on the routes     *)
+(* through the constructor and the second only on the "setter" route       *)
+(* (RouteBlind holds): the alphabet of configurations needs every route    *)
+(* and temperatures between nodes; the driver realises it on real files of *)
+(* every container (EX_KTableHistory_cfg.cfg exports it).                  *)
 (***************************************************************************)
 EXTENDS Integers, Sequences, FiniteSets, TLC
 
@@ -43,11 +76,20 @@ CONSTANTS NN,        \* native points 1..NN
           NTP,       \* (temperature, pressure) classes 1..NTP
           NG,        \* quadrature points
           Keys,      \* subset of {"none", "content", "ends", "size", "first", "window"}
-          ModeReads  \* subset of {"eval", "construct"}
+          ModeReads, \* subset of {"eval", "construct"}
+          TPs,       \* sequence of NTP classes [t |-> .., p |-> ..] over {"node", "between", "below", "above"}
+          Interps,   \* subset of {"linear", "exp"}
+          Routes,    \* subset of {"global", "api", "ctor", "setter"}
+          Extras,    \* subset of {"none", "stream", "deactive"}
+          CfgReads   \* subset of {"both", "k-ctor-drops", "x-ctor-drops", "k-setter-noop", "x-setter-noop"}
 
-\* Key and ModeRead are fixed at Init (one design variant per behaviour)
-VARIABLES Key, ModeRead, win, tp, mode, mode0, memo, outk, outx, shape, evald
-vars == <<Key, ModeRead, win, tp, mode, mode0, memo, outk, outx, shape, evald>>
+ASSUME Len(TPs) = NTP
+
+\* Key, ModeRead and CfgRead are fixed at Init (one design variant per behaviour)
+VARIABLES Key, ModeRead, CfgRead, win, tp, mode, mode0, interp, route, extra, loaded, memo, outk, outx, shape, evald
+design == <<Key, ModeRead, CfgRead>>
+conf   == <<interp, route, extra, loaded>>
+vars == <<design, win, tp, mode, mode0, conf, memo, outk, outx, shape, evald>>
 
 Native   == 1..NN
 Coord(p) == 2 * p
@@ -65,15 +107,28 @@ Widened(w) == Inside(w) \cup (IF Below(w) = {} THEN {} ELSE {KSMax(Below(w))})
                         \cup (IF Above(w) = {} THEN {} ELSE {KSMin(Above(w))})
 Sel(w)     == IF w = 0 THEN Native ELSE IF Aligned(w) THEN Inside(w) ELSE Widened(w)
 
-Coef(p, t) == p * (NTP + 1) + t          \* uninterpreted, injective in (p, t)
-ValueAt(s, c, t) ==
+\* ---- the evaluation configuration
+Default   == "linear"
+Schemed(t) == TPs[t].t = "between"        \* the temperature-interpolation scheme enters the value
+SchemeId(m) == IF m = "exp" THEN 2 ELSE 1
+Drops(f) == (f = "k" /\ CfgRead = "k-ctor-drops") \/ (f = "x" /\ CfgRead = "x-ctor-drops")
+Noop(f)  == (f = "k" /\ CfgRead = "k-setter-noop") \/ (f = "x" /\ CfgRead = "x-setter-noop")
+\* the scheme the objects of family f ("k": k-tables, "x": cross-sections) interpolate with under the current configuration
+Eff(f) == IF Drops(f) /\ route # "setter" THEN Default
+          ELSE IF Noop(f) /\ route = "setter" THEN loaded
+          ELSE interp
+
+\* uninterpreted coefficient of native point p at (T, P) class t under scheme m: injective in (p, t) and, between
+\* temperature nodes, in the scheme
+CoefS(p, t, m) == (p * (NTP + 1) + t) * 3 + (IF Schemed(t) THEN SchemeId(m) ELSE 0)
+ValueAt(s, c, t, m) ==
     LET L == {p \in s : Coord(p) <= c}
         R == {p \in s : Coord(p) >= c}
     IN  IF s = {} THEN <<0, 0>>
-        ELSE << IF L = {} THEN Coef(KSMin(s), t) ELSE Coef(KSMax(L), t),
-                IF R = {} THEN Coef(KSMax(s), t) ELSE Coef(KSMin(R), t) >>
-Res(s, w, t) == [c \in Req(w) |-> ValueAt(s, c, t)]
-Fresh(w, t)  == Res(Sel(w), w, t)
+        ELSE << IF L = {} THEN CoefS(KSMin(s), t, m) ELSE CoefS(KSMax(L), t, m),
+                IF R = {} THEN CoefS(KSMax(s), t, m) ELSE CoefS(KSMin(R), t, m) >>
+Res(s, w, t, m) == [c \in Req(w) |-> ValueAt(s, c, t, m)]
+Fresh(w, t, m)  == Res(Sel(w), w, t, m)
 
 KeyOf(w) == CASE Key \in {"content", "window"} -> Req(w)
               [] Key = "size"    -> Cardinality(Req(w))
@@ -87,38 +142,52 @@ UsedSel(w) == IF w = 0 \/ Key = "none" \/ Hit(w) = {} THEN Sel(w)
 UsedTP(w)  == IF w = 0 \/ Key # "window" \/ Hit(w) = {} THEN tp
               ELSE (CHOOSE m \in Hit(w) : TRUE).t
 
-Init == /\ Key \in Keys /\ ModeRead \in ModeReads
+Init == /\ Key \in Keys /\ ModeRead \in ModeReads /\ CfgRead \in CfgReads
         /\ win \in WinIds /\ tp \in 1..NTP /\ mode \in {"k", "x"} /\ mode0 = mode
+        /\ interp \in Interps /\ route \in Routes /\ extra \in Extras
+        /\ loaded = (IF route = "setter" THEN Default ELSE interp)
         /\ memo = {} /\ outk = <<>> /\ outx = <<>> /\ shape = "-" /\ evald = FALSE
 \* a setting changes: the previous results are no longer looked at
 Forget     == evald' = FALSE /\ outk' = <<>> /\ outx' = <<>> /\ shape' = "-"
-SetWin(w)  == win # w /\ win' = w /\ Forget /\ UNCHANGED <<Key, ModeRead, tp, mode, mode0, memo>>
-SetTP(t)   == tp # t /\ tp' = t /\ Forget /\ UNCHANGED <<Key, ModeRead, win, mode, mode0, memo>>
-SetMode(m) == mode # m /\ mode' = m /\ Forget /\ UNCHANGED <<Key, ModeRead, win, tp, mode0, memo>>
-\* one evaluation of the long-lived pair: the k-table object (with its memo) and the cross-section
-\* object with the same numbers (no memo); `shape` is the path the model actually took
-Eval == /\ outk' = [g \in 1..NG |-> Res(UsedSel(win), win, UsedTP(win))]
-        /\ outx' = Fresh(win, tp)
+SetWin(w)  == win # w /\ win' = w /\ Forget /\ UNCHANGED <<design, tp, mode, mode0, conf, memo>>
+SetTP(t)   == tp # t /\ tp' = t /\ Forget /\ UNCHANGED <<design, win, mode, mode0, conf, memo>>
+SetMode(m) == mode # m /\ mode' = m /\ Forget /\ UNCHANGED <<design, win, tp, mode0, conf, memo>>
+\* another configuration is established through route r: the tables of both kinds are loaded again (whatever
+\* the objects kept is gone) unless r sets the scheme in place on the objects already loaded
+SetCfg(m, r, e) == /\ <<interp, route, extra>> # <<m, r, e>>
+                   /\ interp' = m /\ route' = r /\ extra' = e
+                   /\ loaded' = (IF r = "setter" THEN loaded ELSE m)
+                   /\ memo' = (IF r = "setter" THEN memo ELSE {})
+                   /\ Forget /\ UNCHANGED <<design, win, tp, mode, mode0>>
+\* one evaluation of the long-lived pair under the current configuration: the k-table object (with its memo) and
+\* the cross-section object with the same numbers (no memo); `shape` is the path the model actually took
+Eval == /\ outk' = [g \in 1..NG |-> Res(UsedSel(win), win, UsedTP(win), Eff("k"))]
+        /\ outx' = Fresh(win, tp, Eff("x"))
         /\ memo' = IF win # 0 /\ Key # "none" /\ Hit(win) = {}
                    THEN {[k |-> KeyOf(win), s |-> Sel(win), t |-> IF Key = "window" THEN tp ELSE 0]} ELSE memo
         /\ shape' = IF ModeRead = "eval" THEN mode ELSE mode0
         /\ evald' = TRUE
-        /\ UNCHANGED <<Key, ModeRead, win, tp, mode, mode0>>
+        /\ UNCHANGED <<design, win, tp, mode, mode0, conf>>
 Next == \/ \E w \in WinIds : SetWin(w)
         \/ \E t \in 1..NTP : SetTP(t)
         \/ \E m \in {"k", "x"} : SetMode(m)
+        \/ \E m \in Interps, r \in Routes, e \in Extras : SetCfg(m, r, e)
         \/ Eval
 Spec == Init /\ [][Next]_vars
 
-\* (1) every evaluation equals the evaluation of a freshly loaded object at the current settings
-EvalEqualsFresh == evald => /\ \A g \in 1..NG : outk[g] = Fresh(win, tp)
+\* (1) every evaluation equals the evaluation of a freshly loaded object at the current settings and configuration
+EvalEqualsFresh == evald => /\ \A g \in 1..NG : outk[g] = Fresh(win, tp, interp)
                             /\ shape = mode
-\* (2) the degenerate k-table twin equals the cross-section twin at every quadrature point, every time
+\* (2) the degenerate k-table twin evaluated under the current configuration equals the cross-section twin evaluated
+\*     under the same configuration, at every quadrature point, every time
 TwinEqualsXsec  == evald => \A g \in 1..NG : outk[g] = outx
 \* the result is defined on exactly the requested points
 OnRequestedGrid == evald => \A g \in 1..NG : DOMAIN outk[g] = Req(win)
+\* on nodes and outside the table the scheme does not enter: the result is the same under every scheme
+SchemeFree(w, t) == \A m \in Interps : Fresh(w, t, m) = Fresh(w, t, Default)
+OnNodeSchemeFree == \A w \in WinIds, t \in 1..NTP : Schemed(t) \/ SchemeFree(w, t)
 \* the design variants that must satisfy the invariants, and the mutants, in ONE model-checking run
-Sound     == Key \in {"none", "content", "ends"} /\ ModeRead = "eval"
+Sound     == Key \in {"none", "content", "ends"} /\ ModeRead = "eval" /\ CfgRead = "both"
 HoldFresh == Sound => EvalEqualsFresh
 HoldTwin  == Sound => TwinEqualsXsec
 \* one invariant per design mutant (expected counterexamples, TLC -continue reports each)
@@ -126,4 +195,13 @@ RefuteSize    == Key = "size" => EvalEqualsFresh
 RefuteFirst   == Key = "first" => EvalEqualsFresh
 RefuteWindowTwin == Key = "window" => TwinEqualsXsec
 RefuteLatched == ModeRead = "construct" => EvalEqualsFresh
+RefuteKDrops  == CfgRead = "k-ctor-drops" => TwinEqualsXsec
+RefuteXDrops  == CfgRead = "x-ctor-drops" => TwinEqualsXsec
+RefuteKNoop   == CfgRead = "k-setter-noop" => TwinEqualsXsec
+RefuteXNoop   == CfgRead = "x-setter-noop" => TwinEqualsXsec
+\* ... and where those mutants are INVISIBLE (these hold): on nodes / outside the table; on the other routes
+CfgMutant  == CfgRead # "both" /\ Key = "none" /\ ModeRead = "eval"
+NodeBlind  == (CfgMutant /\ ~Schemed(tp)) => TwinEqualsXsec
+RouteBlind == /\ (CfgMutant /\ CfgRead \in {"k-ctor-drops", "x-ctor-drops"} /\ route = "setter") => TwinEqualsXsec
+              /\ (CfgMutant /\ CfgRead \in {"k-setter-noop", "x-setter-noop"} /\ route # "setter") => TwinEqualsXsec
 =============================================================================
